@@ -358,6 +358,12 @@ class SimProcess(RealProcess):
         if self._sim_sched is None or KERNEL.in_child:
             return _real_exitcode(self)
         if self._sim_visible:
+            # reads of an already observed exit code are counted too: a parent that keeps spinning over
+            # finished workers makes no progress (bounded liveness)
+            sch = self._sim_sched
+            sch.npolls += 1
+            if sch.npolls > KERNEL.poll_cap:
+                raise SimHang('more than %d exit-code reads in one stage call' % KERNEL.poll_cap)
             return self._sim_code
         return self._sim_sched.poll(self)
 
